@@ -407,7 +407,7 @@ def run(tier, seed, replay):
     ]
     out = vlib.outdir(PID)
     rng = random.Random(seed)
-    scen, lead_of, alts = [], {}, {}
+    scen, lead_of, alts, prefix_alts = [], {}, {}, {}
 
     if replay:
         rep = json.load(open(replay))["replay"]
@@ -430,6 +430,16 @@ def run(tier, seed, replay):
         groups = {}
         for tag, p in beh:
             groups.setdefault((tag, json.dumps(steps_of(p))), []).append(p)
+        # outcomes of a step as the model allows them, whatever the script does afterwards (used at race steps)
+        prefix_alts = {}
+        for tag, p in beh:
+            if tag not in EXHAUSTIVE:
+                continue
+            st = steps_of(p)
+            seq, fin = model_projs(p)
+            for j in range(len(st) - 1):
+                if st[j][0] == "tchange":
+                    prefix_alts.setdefault((tag, json.dumps(st[:j + 1])), []).append(seq[j])
         reps = 2 if tier == "quick" else 6
         i = 0
         # quick tier: the exhaustive cache sets are run completely up to 5 steps, the longer scripts by seeded sample
@@ -565,12 +575,17 @@ def run(tier, seed, replay):
                 worst = bad
         if ok_any:
             matched += 1
-        elif first_race is not None and worst is not None and worst >= first_race and not complete:
-            racy_unmatched += 1  # the simulation did not enumerate every outcome of the race
-        else:
-            st = sc["steps"][npre:]
-            where = "after the drain" if worst == len(st) else "after step %d %s" % (worst + 1, st[worst])
-            v.drift.append("trace %s: real server/client state differs from Notify.tla %s" % (tid, where))
+            continue
+        st = sc["steps"][npre:]
+        if first_race is not None and worst is not None and worst >= first_race:
+            # the real run took an outcome of the race under which the model does not continue with this very script
+            # (or, for simulated scripts, an outcome the simulation did not produce)
+            pa = prefix_alts.get((sc.get("tag"), json.dumps([[x[0], x[1], ""] for x in st[:first_race + 1]])))
+            if not complete or pa is None or any(proj_equal(a, real[first_race]) for a in pa):
+                racy_unmatched += 1
+                continue
+        where = "after the drain" if worst == len(st) else "after step %d %s" % (worst + 1, st[worst])
+        v.drift.append("trace %s: real server/client state differs from Notify.tla %s" % (tid, where))
     v.cov["strict_compared"] = compared
     v.cov["strict_traces_explained_by_spec"] = matched
     v.cov["strict_racy_outcome_not_enumerated"] = racy_unmatched
